@@ -90,6 +90,9 @@ PROPS["C03"] = dict(
         "Zrnt.Proofs.C03.M_sound_phase0",
         "Zrnt.Proofs.C03.M_sound_altair",
         "Zrnt.Proofs.C03.M_sound_bellatrix",
+        "Zrnt.Proofs.C03.M_sound_capella",
+        "Zrnt.Proofs.C03.M_sound_deneb",
+        "Zrnt.Proofs.C03.M_sound",
     ],
     modes=[dict(name="c03", stateful=True, max_shrinks=3, nontrivial=_nontrivial)],
     regen=[],
@@ -106,7 +109,7 @@ PROPS["C03"] = dict(
         "M_sound is proved only in part: M_sound_partial is the block-level statement (every block of the block type that S rejects is rejected by "
         "ProcessBlock / PostSlotTransition, no panic, no runaway loop) with the premise OpSteps for an invariant — the simulation of every operation kind "
         "is proved from its M = S theorem (all operation kinds have one since round 3), the preservation of ONE common invariant by every operation is "
-        "proved for EVERY phase0 operation kind (M_sound_phase0: no premise for phase0 blocks; M_sound_altair / M_sound_bellatrix: the same for altair and bellatrix), open for capella, deneb; single-operation forms: attestation_reject_sound, "
+        "proved for EVERY phase0 operation kind (M_sound_phase0: no premise for phase0 blocks; M_sound_altair / _bellatrix / _capella / _deneb: the same for the other forks; M_sound: all five forks under Admissible, the disjunction over the fork of the per-fork hypotheses — no premise about the operations is left); single-operation forms: attestation_reject_sound, "
         "slashing_reject_sound, header_sound, exit_age_sound, deposit_branch_sound, payload_sound. coverage.rejections_by_first_rule counts, per rule of "
         "S, the mutants S rejected by that rule FIRST",
         "block-level hypothesis check_types: the block is a value of the SSZ block type (per-element limits that zrnt enforces when decoding the block)",
@@ -119,16 +122,16 @@ PROPS["C03"] = dict(
                    "runs out of fuel), incl. attestation_reject_sound and slashing_reject_sound; the structure check of indexed attestations as "
                    "coded accepts exactly the spec's predicate, IsSlashableAttestationData is sound, ComputeDomain/ComputeSigningRoot separate "
                    "(domain type, fork version, genesis root, object) up to an explicit hash collision, modelled loops/indexing/divisions cannot "
-                   "panic or run away (M_total); block-level soundness M_sound_partial for any fork under the per-operation premise OpSteps, and "
-                   "for phase0 with that premise discharged for arbitrary blocks incl. deposits (M_sound_phase0); plus a differential run of the "
+                   "panic or run away (M_total); block-level soundness on ALL FIVE FORKS with no premise about the operations: M_sound "
+                   "(and per fork M_sound_phase0 .. M_sound_deneb): every block of the fork's container type that S rejects is rejected by the "
+                   "model of ProcessBlock and PostSlotTransition, without panic or runaway loop; plus a differential run of the "
                    "real PostSlotTransition against S on thousands of mutants of valid blocks of all five forks (over-limit MAX_x+1 blocks, "
                    "payload fields at exact limits, second block at the same slot, exits at the exact age boundary), with per-rule counts of "
                    "which spec rule rejected each mutant first",
         level_note="trusted: Lean kernel, the specification transcription S, flat state/block exchange formats, signature oracle (real BLS, own "
                    "domain/committee code: this is what exposes a signature accepted under a wrong domain, fork version, chain or key), block mutator; "
-                   "the tie M = Go is by correspondence, not by proof; for altair..deneb whole-block soundness is proved under the OpSteps premise "
-                   "only (M_sound_partial), so that every rejected altair..deneb block is rejected by the code rests on the per-operation "
-                   "theorems plus the correspondence on mutants; M_sound_phase0 assumes a pre-state inside the budgeted invariant P0DInv",
+                   "the tie M = Go is by correspondence, not by proof; M_sound assumes a pre-state inside the budgeted invariant (P0DInv / AltInv, "
+                   "see C01) and blocks of the SSZ block type; M_sound_partial (premise OpSteps, arbitrary invariant) is kept",
         technique="Lean 4 proof (soundness lemmas, domain separation, totality) + Go/Lean differential correspondence on block mutants",
         design_ref="DESIGN.md 5/C03", engine="lean"),
 )
